@@ -1373,3 +1373,30 @@ def latest_record_rule(ctx, rid, floor=3):
                 ok = cval == -1
                 ctx.ob(rid, f'{m.name}.{fn.name}:record-pick#{k}', ok, '' if ok else
                        f'`{ast.unparse(n)}` picks record {cval} of a key that may have been recorded several times; the value of a key is its latest record (index -1)', m.rel, n.lineno)
+
+
+# ---------------------------------------------------------------------------------------------------------------------
+# `log_of_measurement_results` (and StepResult.measurements built from it) is a latest-record-per-key view.  The records a
+# sampler returns for run() hold *every* record of a key; they must come from the classical data store.
+def run_records_rule(ctx, rid, floor=3):
+    repo = ctx.repo
+    ctx.rule(rid, 'run() returns every record: no method of a class that implements run_sweep / run_sweep_iter / _run (a sampler) reads the latest-record view '
+             '`log_of_measurement_results`; per-repetition results are assembled from `classical_data.records` / `channel_records` - a key measured twice per repetition otherwise comes '
+             'back with one record, unlike every other simulator', floor=floor, style='WMW')
+    n = 0
+    for ci in sorted(repo.classes.values(), key=lambda c: c.qual):
+        if '.testing.' in ci.qual or '.contrib.' in ci.qual or not ci.qual.startswith(('cirq.sim.', 'cirq.work.', 'cirq_google.', 'cirq_ionq.', 'cirq_aqt.', 'cirq_pasqal.')):
+            continue
+        if not ({'run_sweep', 'run_sweep_iter', '_run', 'run_sweep_async'} & set(ci.methods)):
+            continue
+        for mn, fn in sorted(ci.methods.items()):
+            if mn not in ('run_sweep', 'run_sweep_iter', '_run', 'run_sweep_async', 'run', 'run_batch'):
+                continue
+            reads = [x for x in ast.walk(fn) if isinstance(x, ast.Attribute) and x.attr == 'log_of_measurement_results']
+            n += 1
+            ok = not reads
+            ctx.ob(rid, f'{ci.qual}.{mn}:all-records', ok, '' if ok else
+                   f'`{ast.unparse(reads[0])}` holds only the latest record of each key; a circuit that records a key twice per repetition loses the earlier records in the result',
+                   ci.mod.rel, reads[0].lineno if reads else fn.lineno)
+    if n == 0:
+        raise AnalysisError(f'{rid}: no sampler class found')
